@@ -158,8 +158,8 @@ impl Scenario for Demux {
 
     fn budget(&self, tier: Tier) -> u64 {
         match tier {
-            Tier::Quick => 4_000,
-            Tier::Thorough => 300_000,
+            Tier::Quick => 20_000,
+            Tier::Thorough => 1_000_000,
         }
     }
 
